@@ -681,12 +681,15 @@ func (fv *FV) assumeWF(st *State, v Val) {
 			if it, ok := n.Underlying().(*types.Interface); ok {
 				alts := []string{fmt.Sprintf("(= (ityp %s) 0)", v.T)}
 				for _, c := range fv.eng.implementors(it) {
-					if cn := namedOf(c); cn != nil && cn.Obj().Pkg() != nil && fv.eng.normPkgPath(cn.Obj().Pkg().Path()) == "GEN" && cn.Obj().Pkg() != n.Obj().Pkg() {
+					// an interface of a generated package is only implemented inside that package
+					if cn := namedOf(c); cn != nil && cn.Obj().Pkg() != nil && fv.eng.normPkgPath(n.Obj().Pkg().Path()) == "GEN" && cn.Obj().Pkg() != n.Obj().Pkg() {
 						continue
 					}
 					alts = append(alts, fmt.Sprintf("(= (ityp %s) %d)", v.T, fv.u.typeID(c)))
 				}
-				st.assume("(or " + strings.Join(alts, " ") + ")")
+				if len(alts) > 1 {
+					st.assume("(or " + strings.Join(alts, " ") + ")")
+				}
 			}
 		}
 	}
